@@ -168,6 +168,7 @@ class World:
         self.wall_step = wall_step
         self.wall_steps: list[tuple[float, float]] = []  # (mono, delta)
         self.net = SimNet(self.loop, self.chooser.sub('net'), self.rec)
+        self.net.tx_hook = self._on_tx
         self.procs = SimProcs(self.loop, self.rec)
         self.fs = SimFS(self.rec)
         self.loop.fd_readable = self.procs.fd_readable
@@ -183,6 +184,8 @@ class World:
         self.logs: list[tuple] = []
         self.live_generators = 0
         self.read_log: dict[int, list] = {}
+        self.fsm_hooks: list = []
+        self.tx_states: list[tuple] = []  # (cid, mono, nbytes, fsm state of the owning peer at write time)
         self.generators_started = 0
         self.ended: str | None = None
         self.early_exit = False
@@ -219,6 +222,18 @@ class World:
                 m.update(tag.encode())
                 last = tag
         return m.hexdigest()[:16]
+
+    def _on_tx(self, conn, data: bytes) -> None:
+        state = '?'
+        if self.reactor is not None:
+            for p in self.reactor._peers.values():
+                pr = p.proto
+                if pr is not None and pr.connection is not None and pr.connection.io is conn.sock:
+                    state = p.fsm.name()
+                    break
+            else:
+                state = 'no-peer'
+        self.tx_states.append((conn.cid, self.loop.mono, len(data), state))
 
     # ------------------------------------------------------------------- clocks
 
@@ -325,7 +340,10 @@ class World:
             proto = peer.proto
             io_ = proto.connection.io if proto is not None and proto.connection is not None else None
             world.fsm_log.append((world._seq + 1, world.loop.mono, name, frm, to, id(peer)))
-            world.rec('fsm', peer=name, frm=frm, to=to, fd=io_._fd if io_ is not None and hasattr(io_, '_fd') else -1)
+            fd = io_._fd if io_ is not None and hasattr(io_, '_fd') else -1
+            world.rec('fsm', peer=name, frm=frm, to=to, fd=fd)
+            for cb in world.fsm_hooks:
+                cb(name, frm, to, fd, peer)
             return r
 
         FSM.change = change
